@@ -271,3 +271,27 @@ def r_segflag(ctx):
     n = check_segmentation_flag(ctx, [ctx.body(n) for n in ['windows::char', 'windows::byte', 'windows::windows']], 'windows')
     if n == 0:
         raise AnchorMissing('CharString::new sites of the windows code')
+
+
+@rule('C16', 'R-C16-7', 'prerequisite (the segmentation primitive)',
+      'CharString::new segments by graphemes(true) / chars() selected by the flag alone and keeps byte lengths at full width '
+      '(R-C11-6 re-evaluated): every index, length and range of this property is counted in its characters')
+def r_charstring(ctx):
+    from rules import c11
+    c11.charstring_primitive(ctx)
+
+
+@rule('C16', 'R-C16-8', 'T15 TYPE (no byte slicing with character positions)',
+      'the window functions never slice the raw text directly (`&s[a..b]`, `s.get(a..b)`, `split_at`): every range goes through '
+      'CharString (char_range_to_byte_range / sub); a character index used as a byte offset panics inside a multi-byte character')
+def r8(ctx):
+    n = 0
+    for fn in (W + 'char', W + 'byte', W + 'windows'):
+        b0 = ctx.body(fn)
+        for b in [b0] + closures_in(ctx, b0):
+            n += 1
+            for t in b.calls(r'str.*Index.*::index$|str::get$|str::get_unchecked$|str::split_at$|SliceIndex<str>.*::index$|str::traits::(.*::)?index$'):
+                rcv = core(sym(b, t.args[0]))
+                ctx.fail(b, 'raw-slice|' + fn.rsplit('::', 1)[-1], '%s slices the raw text `%s` with `%s` at line %d: positions here are character indices, not byte offsets' % (
+                    fn, show_in(b, rcv)[:40], (t.callee_res() or '').rsplit('::', 1)[-1], t.span['line']), t.span)
+    ctx.ok(None, 'no raw string slicing in the %d window bodies' % n)
